@@ -37,6 +37,7 @@ type shapeB struct {
 
 // simTransport is the simulated network: it answers every request from a script.
 type simTransport struct {
+	clen    int64 // Content-Length to announce (-1: unknown / chunked)
 	status  int
 	body    *FragReader
 	err     error
@@ -53,7 +54,7 @@ func (t *simTransport) RoundTrip(req *http.Request) (*http.Response, error) {
 	}
 	return &http.Response{
 		StatusCode: t.status, Status: fmt.Sprintf("%d %s", t.status, http.StatusText(t.status)),
-		Proto: "HTTP/1.1", ProtoMajor: 1, ProtoMinor: 1, Header: http.Header{}, Body: t.body, Request: req, ContentLength: -1,
+		Proto: "HTTP/1.1", ProtoMajor: 1, ProtoMinor: 1, Header: http.Header{}, Body: t.body, Request: req, ContentLength: t.clen,
 	}, nil
 }
 
@@ -361,11 +362,11 @@ func (c19) Gen(rng *rand.Rand, tier string, k int) *Case {
 	if rng.Intn(4) == 0 {
 		c.Faults = append(c.Faults, FaultSpec{Kind: "read-error", At: rng.Intn(len(c.Doc) + 1)})
 	}
-	c.Param = []int{200}
+	c.Param = []int{200, rng.Intn(2)}
 	if c.Entity == "tiingo-getsince" || c.Entity == "tiingo-lastdate" {
 		switch rng.Intn(6) {
 		case 0:
-			c.Param = []int{[]int{201, 204, 301, 302, 400, 401, 403, 404, 429, 500, 502, 503}[rng.Intn(12)]}
+			c.Param[0] = []int{201, 204, 301, 302, 400, 401, 403, 404, 429, 500, 502, 503}[rng.Intn(12)]
 		case 1:
 			c.Faults = append(c.Faults, FaultSpec{Kind: "transport-error"})
 		}
@@ -481,7 +482,10 @@ func (c19) Run(c *Case, st *Stats) []Violation {
 					}
 				}
 			case "tiingo-getsince", "tiingo-lastdate":
-				tr := &simTransport{status: status, body: newReader()}
+				tr := &simTransport{status: status, body: newReader(), clen: -1}
+				if len(c.Param) > 1 && c.Param[1] == 1 {
+					tr.clen = int64(len(c.Doc)) // a server that announces the length (as most do)
+				}
 				srcReader = tr.body
 				if transportErr {
 					tr.err = errors.New("simulated transport failure: connection reset")
@@ -579,10 +583,16 @@ func (c19) Run(c *Case, st *Stats) []Violation {
 					}
 					got = append(got, v)
 				}
+				ld, lderr := repo.LastDate("A")
 				compare = func() {
 					want := refCsv[asset.Snapshot](bytes.NewReader(c.Doc), true)
 					if ok, why := sameSnapshots(got, want); !ok {
 						add("wrong-records", why)
+					}
+					if len(want) == 0 && lderr == nil {
+						add("error-not-reported", fmt.Sprintf("LastDate of a file without a well-formed snapshot returned %v and no error", ld))
+					} else if len(want) > 0 && (lderr != nil || !ld.Equal(want[len(want)-1].Date)) {
+						add("wrong-records", fmt.Sprintf("LastDate returned %v, %v; the last well-formed snapshot is dated %v", ld, lderr, want[len(want)-1].Date))
 					}
 				}
 			}
